@@ -109,6 +109,7 @@ func (i *vectorAggIterator) Next(r *Step) bool {
 			Set:  g.metric,
 		})
 	}
+	sortSamples(r.Samples)
 
 	return true
 }
@@ -179,7 +180,13 @@ func (i *vectorAggHeapIterator) Next(r *Step) bool {
 	}
 
 	r.Samples = r.Samples[:0]
-	for _, g := range result {
+	groupKeys := make([]GroupingKey, 0, len(result))
+	for key := range result {
+		groupKeys = append(groupKeys, key)
+	}
+	slices.Sort(groupKeys)
+	for _, key := range groupKeys {
+		g := result[key]
 		samples := g.heap.elements
 		slices.SortFunc(samples, func(a, b Sample) int {
 			if i.less(a, b) {
